@@ -51,6 +51,7 @@ func driveBigIO(s *shardSet, rng *rand.Rand, thorough bool) {
 }
 
 func driveBigConvert(s *shardSet, rng *rand.Rand, thorough bool) {
+	driveWideningSeries(s, rng)
 	k := 0
 	for _, f := range ConvFns {
 		for _, sty := range f.Src {
@@ -74,6 +75,28 @@ func driveBigConvert(s *shardSet, rng *rand.Rand, thorough bool) {
 				w.Convert(f.Name, sv, len(w.Views)-1)
 				w.Slice(d, 1, l) // destination shorter than the source
 				w.Convert(f.Name, sv, len(w.Views)-1)
+			}
+		}
+	}
+}
+
+// driveWideningSeries: one long (>= 256 samples) 8- or 16-bit source converted into EVERY admissible destination
+// type one after another (a table or scale cached "between the calls" must not leak from one format to the next).
+func driveWideningSeries(s *shardSet, rng *rand.Rand) {
+	for _, sty := range []string{"uint8", "int8", "uint16", "int16", "float32"} {
+		for _, f := range ConvFns {
+			if !contains(f.Src, sty) {
+				continue
+			}
+			w := s.Next()
+			w.Reset()
+			src := w.spreadSource(sty, 1, 256+rng.Intn(64))
+			order := rng.Perm(len(f.Dst))
+			for _, di := range order {
+				w.Alloc(f.Dst[di], 1, w.Views[src].Length(), w.Views[src].Length())
+				d := len(w.Views) - 1
+				w.Convert(f.Name, src, d)
+				w.Drop(d)
 			}
 		}
 	}
